@@ -75,7 +75,7 @@ func init() {
 	Register(&Check{
 		ID: "C06", Level: "fault_enumeration", Tech: "deterministic simulation: crash-point enumeration over the recorded drive write stream (torn tails), rebuild of every surviving prefix, comparison with the clean-prefix state",
 		Rule:      "per generated history the drive's write log is recorded; crash points = every boundary between two drive writes, every record/header/content boundary +-1 byte and sampled interior offsets (thorough: every byte of the last records); for each surviving prefix the index is rebuilt (recovery.Index, real decrypt/verify) in a fresh instance and its observed tree+contents compared with the rebuild of the tape cut back to the last complete record: only the torn record's own entry may differ, and reading it must fail or give its old content; an evaluation = one crash point; non-trivial = the cut lies strictly inside a record; distinct by (history, cut offset class)",
-		QuickRuns: 200, QuickSecs: 70, ThoroughRuns: 2000, ThoroughSecs: 1500,
+		QuickRuns: 400, QuickSecs: 70, ThoroughRuns: 2000, ThoroughSecs: 1500,
 		Assumptions: []string{"crash model: the durable tape is a byte prefix of the bytes issued to the drive (append-only, never synced); the index is rebuilt from scratch", "the clean-prefix rebuild used as reference is tied to the live state by C01 at call boundaries"},
 		Gen: func(r *rand.Rand, tier string, relax Relax) *Case {
 			c := &Case{Cfg: GenConfig(r, 0.5), P: map[string]int64{"enumerate": 1}, S: map[string]string{}}
@@ -90,7 +90,7 @@ func init() {
 	Register(&Check{
 		ID: "C07", Level: "fault_enumeration", Tech: "deterministic simulation: duplicate-delivery of the log - replay of the whole tape into every prefix index (restart at each call boundary), twice",
 		Rule:      "per generated history (moves, delete-then-recreate, renames onto used names) and for EVERY call boundary and every record boundary j: index I_j = rebuild of the tape prefix at j; the whole tape is then re-indexed into I_j without wiping, twice; each pass must return nil and the observed tree+contents after pass 1, after pass 2 and of a from-scratch rebuild must be identical; an evaluation = one (history, j); non-trivial = the prefix index differs from the final state; distinct by (history, j)",
-		QuickRuns: 700, QuickSecs: 60, ThoroughRuns: 15000, ThoroughSecs: 1500,
+		QuickRuns: 1500, QuickSecs: 60, ThoroughRuns: 15000, ThoroughSecs: 1500,
 		Assumptions: []string{"prefix indexes are produced by rebuilding the tape cut at a call boundary"},
 		Gen: func(r *rand.Rand, tier string, relax Relax) *Case {
 			c := &Case{Cfg: GenConfig(r, 0.6), P: map[string]int64{}, S: map[string]string{}}
